@@ -134,7 +134,7 @@ Section Loop.
     destruct vs as [|v vs']; simpl exec_for.
     - cbn [sim]. split; [split; auto|]. exists []. rewrite gs_for. unfold head. vstep. fin.
     - match goal with Hc : pcode_at _ ?q (gen_assign _ _ _ _) _ _ |- _ =>
-        pose proof (IHA stk ρ t v ps s fid C fv K q ({| it_rem := vs'; it_lock := lock |} :: I) brk cont Ht Hwf Hstk Hc) as IH1 end.
+        pose proof (IHA stk ρ t v ps s fid C fv K q [] ({| it_rem := vs'; it_lock := lock |} :: I) brk cont Ht Hwf Hstk Hc) as IH1 end.
       assert (Hpre : star cp fn (S1 fid C fv K head [] ρ ({| it_rem := v :: vs'; it_lock := lock |} :: I) s)
                        (S1 fid C fv K (head + 1) [v] ρ ({| it_rem := vs'; it_lock := lock |} :: I) s)).
       { unfold head. vstep. fin. }
